@@ -356,6 +356,11 @@ impl World {
                 let v = Unrepresentable { version: "1".into(), content_hash: u64::MAX };
                 conv_unit(with_ref!(self.refs.get(n).expect("live ref"), r => r.write_metadata(v)))
             }
+            Op::WMeta { n, k: 4 } => {
+                // "no metadata": the file must not keep the metadata table of an earlier write or build
+                let v: Option<toml::Table> = None;
+                conv_unit(with_ref!(self.refs.get(n).expect("live ref"), r => r.write_metadata(v)))
+            }
             Op::WMeta { n, k } => {
                 let v = meta_value(*k);
                 conv_unit(with_ref!(self.refs.get(n).expect("live ref"), r => r.write_metadata(v)))
@@ -615,7 +620,7 @@ pub fn enabled_ops(snap: &Snapshot, live: &BTreeSet<usize>, all_shapes: bool) ->
             out.push(Op::Uncached { n, build, launch });
         }
         if live.contains(&n) {
-            for k in 0..4 {
+            for k in 0..5 {
                 out.push(Op::WMeta { n, k });
             }
             for k in 0..4 {
@@ -727,6 +732,11 @@ pub fn step(snap: &Snapshot, live: &BTreeSet<usize>, rep: &Rep, op: &Op, verbose
             let mut expect_err = false;
             match op {
                 Op::WMeta { k: 3, .. } => {}
+                Op::WMeta { k: 4, .. } => {
+                    if let Some(Ok(t)) = &mut want.toml {
+                        t.metadata = None;
+                    }
+                }
                 Op::WMeta { k, .. } => {
                     if let Some(Ok(t)) = &mut want.toml {
                         t.metadata = Some(meta_value(*k));
@@ -945,7 +955,7 @@ pub fn run(args: &Args) {
     rep.cov("evaluations", r.transitions);
     rep.cov("distinct_nontrivial", r.states.saturating_sub(n_inits as u64));
     rep.cov("rule", "transitions = real cached_layer/uncached_layer/write_*/restore executions from distinct (layers-dir snapshot, live refs) states, BFS from 5 seeded states built by real operations; distinct_nontrivial = distinct non-seed states reached (each judged against the reference model after the transition that produced it)");
-    rep.cov("bound", json!({"depth": depth, "names": NAMES, "requests": "cached x {(build),(launch)} x {Generic,V1} x restored{Keep,Delete,Err} / invalid{Delete,Replace->restored,Err} x IntoAction shapes; uncached x 3 flag sets", "writes": "metadata 2, env 4 (all scopes incl. 2 processes), sboms 3, exec.d 4 (incl. missing source), plain file", "shapes": if args.thorough() {"all 4 per request"} else {"rotated with (name,flags,type)"}}));
+    rep.cov("bound", json!({"depth": depth, "names": NAMES, "requests": "cached x {(build),(launch)} x {Generic,V1} x restored{Keep,Delete,Err} / invalid{Delete,Replace->restored,Err} x IntoAction shapes; uncached x 3 flag sets", "writes": "metadata 5 (3 values, one TOML cannot represent, None), env 4 (all scopes incl. 2 processes), sboms 3, exec.d 4 (incl. missing source), plain file", "shapes": if args.thorough() {"all 4 per request"} else {"rotated with (name,flags,type)"}}));
     rep.cov("exhaustive", r.cap_hit.is_none());
     if let Some(c) = &r.cap_hit {
         rep.cov("cap_hit", c.clone());
